@@ -227,7 +227,7 @@ def r4(idx, rep):
 
         it = Interp(idx, types={"self": "Last"}, handlers={".matches": child})
         store = {"self.children": [Obj("c0")][:nchild], "self.matcher.csvpath.is_frozen": True}
-        for p in it.run_eager(fi, {LAST: [True, False], LASTSCAN: [True, False], "self.matcher.csvpath.scanner": [Obj("scanner"), None]}, store=store):
+        for p in it.run_eager(fi, {LAST: [True, False], LASTSCAN: [True, False], "self.matcher.csvpath.scanner": [Obj("self.matcher.csvpath.scanner"), None]}, store=store):
             p.choices = list(p.cfg.items()) + list(p.choices)
             nrows += 1
             last = p.atom(LAST)
